@@ -275,3 +275,11 @@ func Node2Gen(t *rapid.T, depth int, aspect float64, label string) *Node2 {
 		return &Node2{Op: op, Kids: []*Node2{Node2Gen(t, depth-1, aspect, label+".pos"), Node2Gen(t, depth-1, aspect, label+".neg")}}
 	}
 }
+
+// Scaled returns the same shape in other units (see Shape3.Scaled).
+func (s Shape2) Scaled(k float64) Shape2 {
+	out := s
+	out.A, out.B, out.C = s.A.Scale(k), s.B.Scale(k), s.C.Scale(k)
+	out.R = s.R * k
+	return out
+}
